@@ -511,7 +511,7 @@ def run(chk: Check):
                 plan.append((ci, list(seq) + EPILOGUE))
     # a failing read (file moved away) and full-length / reversed slicers, mixed with the core operations
     new_cfgs = [A(dt, order='C') for dt in ('i2', 'f4', 'f8')] + \
-        [P(dt, scl, True) for dt in ('i2', 'f4', 'f8') for scl in (None, (2, 1))] + [P('f8', None, False), P('i2', (2, 1), False)]
+        [P('f8', None, True), P('i2', (2, 1), True), P('f4', None, True), P('f8', None, False), P('i2', (2, 1), False)]
     if thorough:
         new_cfgs = main_cfgs
     base8 = ['f8', 'f4', 'u8', 'as', 'un', 'ed', 'im', 'sl']
